@@ -167,3 +167,27 @@ func (s *vEOFStream) Read(p []byte) (int, error) {
 	}
 	return n, nil
 }
+
+// vIdleStream: a conformant io.Reader that now and then returns (0, nil) before delivering data
+// (the io.Reader contract allows it; callers must treat it as "nothing happened").
+type vIdleStream struct {
+	data []byte
+	pos  int
+	tick int
+}
+
+func (s *vIdleStream) Read(p []byte) (int, error) {
+	if len(p) == 0 {
+		return 0, nil
+	}
+	s.tick++
+	if s.tick%2 == 1 {
+		return 0, nil
+	}
+	if s.pos >= len(s.data) {
+		return 0, io.EOF
+	}
+	n := copy(p, s.data[s.pos:])
+	s.pos += n
+	return n, nil
+}
